@@ -12,6 +12,10 @@ from . import verus as verus_mod
 ROOT = os.path.dirname(os.path.dirname(os.path.abspath(__file__)))
 REPO = os.environ.get('VERIF_REPO', '/repo')
 OUT = os.path.join(ROOT, 'out')
+# evidence of runs against a scratch copy (VERIF_REPO != /repo: self-tests with deliberately broken code) must never
+# overwrite the record of the real tree
+EVIDENCE_DIR = os.environ.get('VERIF_EVIDENCE_DIR') or (
+    os.path.join(ROOT, 'evidence') if os.path.realpath(REPO) == '/repo' else os.path.join(OUT, 'evidence-scratch'))
 
 
 def load_known():
@@ -198,8 +202,8 @@ def write_evidence(pid, tier, seed, cfg, report, violations, known_hit):
     ev = dict(property_id=pid, tier=tier, seed=int(seed), level=level, coverage=cov,
               assumptions=cfg.get('assumptions', []) + ['mechanical scan of generated Verus text: ' + a for a in report['assumptions']],
               wall_s=round(report.get('wall_s', 0.0), 2), violations=len(violations))
-    os.makedirs(os.path.join(ROOT, 'evidence'), exist_ok=True)
-    with open(os.path.join(ROOT, 'evidence', f'{pid}.json'), 'w') as f:
+    os.makedirs(EVIDENCE_DIR, exist_ok=True)
+    with open(os.path.join(EVIDENCE_DIR, f'{pid}.json'), 'w') as f:
         json.dump(ev, f, indent=1)
 
 
